@@ -82,6 +82,8 @@ SELECTORS = [
     ("PCovCUR", "sample", 3, 2, 1, {"n_to_select": 2}),
     ("VoronoiFPS", "sample", 4, 2, 0, {"n_to_select": 2, "full_fraction": 0.5}),
     ("VoronoiFPS", "sample", 4, 2, 0, {"n_to_select": 2}),
+    ("FPS", "feature", 2, 4, 0, {"n_to_select": 3, "score_threshold_type": "relative"}),
+    ("CUR", "feature", 3, 3, 0, {"n_to_select": 2, "score_threshold_type": "relative"}),
 ]
 
 
@@ -153,6 +155,8 @@ class C09(runner.Check):
             over["mixing"] = mk("mix", (), "unit")
         if cls in ("CUR", "PCovCUR") and self._symbolic:
             over["tolerance"] = 0
+        if "score_threshold_type" in params:
+            over["score_threshold"] = mk("thr", (), "pos")
         X = W.add("X", mk("x", (n, m), "data"))
         y = W.add("y", mk("y", (n, p), "data")) if p else None
         sel = sc.make_selector(c, **over)
